@@ -49,6 +49,12 @@ CHECKS = {
  "C18": ("taint-token runtime monitor over an injected recording logger plus the stock logger's debug output",
          "Every login carries a unique random password token and the scope a unique secret token; all logger calls (messages, Record maps minus caller-obscured keys, retained context fields) and the stock Logger's level-30 output are searched for the tokens in plain/hex/base64 form across all START combinations, ASCII/PAP flows, aborts, error paths and wrong-key connections.",
          "stock logger at level 30 is a superset of levels 10/20", "3/C18"),
+ "C10": ("reference-evaluator runtime monitor for authentication (independent evaluation of configuration + session transcript; soundness on every reply, completeness on well-formed logins)",
+         "Generated configurations (scopes, users, groups, credential kinds, duplicates) and authentication histories are played against the reference server; a PASS must be justified by a (user, password) pair the session itself carried that verifies in the connection's scope; well-formed ASCII/PAP logins with the right password must end in PASS.",
+         "bcrypt trusted; passwords 1..72 bytes; soundness judged generously over all pairs a session carried", "3/C10"),
+ "C11": ("reference-evaluator runtime monitor for authorization (multi-reading evaluator of rule order / whole-string match / default deny and of service selection)",
+         "Generated policies (regex grammar incl. partial anchors, alternations, (?m), invalid patterns; user/group layering; services with conditions and optional values) and requests aimed at the policies' own patterns are sent to the reference server; grants must be justified by a permit as first applying rule under some reading; canonical session requests must return exactly the expected value set and add/replace status.",
+         "regexp trusted; command path judged in the grant direction only; non-canonical session requests unjudged", "3/C11"),
 }
 
 NA_REASON = "check not built yet in this round (work in progress; see DESIGN.md section 3 for the planned monitor)"
